@@ -125,6 +125,11 @@ def check_generic_traversal(ctx: Ctx, env, cls_q: str, transformer: bool, rule: 
                         elif isinstance(fv, MapV):
                             good = getattr(fv.over, "path", None) == f"node.{f.name}" and _is_visit_of(fv.elem, f"node.{f.name}[*]") \
                                 and not getattr(fv, "filtered", False)
+                        elif getattr(fv, "map_of", None) is not None and getattr(fv, "created_in", None) is not None:
+                            # a copy of the list whose every element was replaced in place by its visit
+                            good = getattr(fv.map_of, "path", None) == f"node.{f.name}" and _is_visit_of(fv.elem, f"node.{f.name}[*]")
+                        elif getattr(fv, "copy_of", None) is not None and f"node.{f.name}[*]" not in expected:
+                            good = getattr(fv.copy_of, "path", None) == f"node.{f.name}"  # an empty list, copied
                     else:
                         good = isinstance(fv, Sym) and fv.op == "field" and fv.args[1] == f.name and getattr(fv.args[0], "path", "") == "node"
                     if not good:
@@ -288,7 +293,9 @@ def _mutations(fn: ast.FunctionDef, m, owner: str, env):
     skip = set()
     if is_method and params:
         skip.add(params[0])
-    in_grammar = m.name == "odata_query.grammar"
+    # lexer / parser classes, wherever they are defined (they may be re-exported from grammar.py)
+    g = env.grammar
+    in_grammar = m.name == "odata_query.grammar" or (bool(owner) and f"{m.name}.{owner}" in (g.lexer_class, g.parser_class))
     derived: Set[str] = set()
     ann = {a.arg: ast.unparse(a.annotation) if a.annotation is not None else "" for a in fn.args.args + fn.args.kwonlyargs}
     for p in params:
